@@ -20,22 +20,46 @@ type c14Case struct {
 	D       DumpM
 	Naming  bool
 	Actions []int // 0..3 Aggregate(level), 4 Aggregated.ToHTML, 5 Snapshot.ToHTML, 6 IsRace
+	// Processed: every frame carries the typed argument texts source analysis adds
+	Processed bool `json:",omitempty"`
 }
 
 var actionNames = []string{"Aggregate(ExactFlags)", "Aggregate(ExactLines)", "Aggregate(AnyPointer)", "Aggregate(AnyValue)", "Aggregated.ToHTML", "Snapshot.ToHTML", "IsRace"}
 
+// setProcessed gives every frame that has arguments the typed rendering source analysis
+// would add (one text per top-level argument), so that histories also run on snapshots as
+// the default options produce them.
+func setProcessed(s *stack.Snapshot) {
+	for _, g := range s.Goroutines {
+		for i := range g.Stack.Calls {
+			a := &g.Stack.Calls[i].Args
+			a.Processed = nil
+			for k := range a.Values {
+				a.Processed = append(a.Processed, "T("+a.Values[k].String()+")")
+			}
+		}
+	}
+}
+
 func c14Oracle(c c14Case) error {
 	opts := &stack.Opts{NameArguments: c.Naming}
-	work, err := parseDump(&c.D, opts)
+	parse := func() (*stack.Snapshot, error) {
+		s, err := parseDump(&c.D, opts)
+		if err == nil && c.Processed {
+			setProcessed(s)
+		}
+		return s, err
+	}
+	work, err := parse()
 	if err != nil {
 		return err
 	}
-	twin, err := parseDump(&c.D, opts)
+	twin, err := parse()
 	if err != nil {
 		return err
 	}
 	fresh := func(l stack.Similarity) []*stack.Bucket {
-		s, _ := parseDump(&c.D, opts)
+		s, _ := parse()
 		return s.Aggregate(l).Buckets
 	}
 	var firstRes [4][]*stack.Bucket
@@ -100,7 +124,7 @@ func names(a []int) []string {
 var c14Hist = Check[c14Case]{
 	Prop: "C14", Name: "history",
 	Gen: func(t *rapid.T) c14Case {
-		return c14Case{D: genAggDump(t, 20), Naming: rapid.Bool().Draw(t, "naming"),
+		return c14Case{D: genAggDump(t, 20), Naming: rapid.Bool().Draw(t, "naming"), Processed: oneIn(t, 3, "processed"),
 			Actions: rapid.SliceOfN(rapid.IntRange(0, 6), 1, 30).Draw(t, "actions")}
 	},
 	Oracle: c14Oracle,
